@@ -615,6 +615,160 @@ def synth_select_cases(ctx, nums, label):
                 ctx.disagree("decrypt-stubbed-prf", rep, m, canon(impl))
 
 
+# ----------------------------------------------------------------------------------------------
+# every public construction path of the SAME key must decrypt alike
+# ----------------------------------------------------------------------------------------------
+
+def _der_len(n):
+    if n < 128:
+        return bytes([n])
+    b = n.to_bytes((n.bit_length() + 7) // 8, "big")
+    return bytes([0x80 | len(b)]) + b
+
+
+def _der(tag, body):
+    return bytes([tag]) + _der_len(len(body)) + body
+
+
+def _der_int(x):
+    b = x.to_bytes(max(1, (x.bit_length() + 8) // 8), "big")     # leading zero when the top bit is set
+    return _der(2, b)
+
+
+def pem_of(nums, pkcs8=False):
+    """PEM of the private key written here (PKCS#1 RSAPrivateKey, optionally wrapped in PKCS#8)"""
+    import base64
+    n, d, p, q = nums
+    body = _der(0x30, b"".join(_der_int(x) for x in (0, n, E, d, p, q, d % (p - 1), d % (q - 1), pow(q, -1, p))))
+    name = "RSA PRIVATE KEY"
+    if pkcs8:
+        alg = _der(0x30, bytes.fromhex("06092a864886f70d010101") + b"\x05\x00")
+        body = _der(0x30, _der_int(0) + alg + _der(4, body))
+        name = "PRIVATE KEY"
+    b64 = base64.b64encode(body).decode()
+    return "-----BEGIN %s-----\n%s\n-----END %s-----\n" % (name, "\n".join(b64[i:i + 64] for i in range(0, len(b64), 64)), name)
+
+
+def _seeded_library_random(seed, fn):
+    """run fn with the library's getRandomBytes driven by random.Random(seed) (key generation becomes reproducible)"""
+    import random
+    import tlslite.utils.cryptomath as cm
+    r = random.Random(seed)
+    orig = cm.getRandomBytes
+    cm.getRandomBytes = lambda nbytes: bytearray(r.getrandbits(8) for _ in range(nbytes))
+    try:
+        return fn()
+    finally:
+        cm.getRandomBytes = orig
+
+
+def key_objects(bits, gen_seed):
+    """{path name: key object} — one key generated by the library, then the same key through every public
+    construction path; also returns its numbers"""
+    from tlslite.utils import keyfactory
+    from tlslite.utils.python_rsakey import Python_RSAKey
+    objs = {}
+    a = _seeded_library_random(gen_seed, lambda: keyfactory.generateRSAKey(bits, implementations=["python"]))
+    nums = (int(a.n), int(a.d), int(a.p), int(a.q))
+    n, d, p, q = nums
+    objs["generateRSAKey"] = a
+    b = _seeded_library_random(gen_seed, lambda: Python_RSAKey.generate(bits))
+    if int(b.n) == n and int(b.d) == d:
+        objs["Python_RSAKey.generate"] = b
+    dP, dQ, qInv = d % (p - 1), d % (q - 1), pow(q, -1, p)
+    objs["ctor-all-numbers"] = Python_RSAKey(n, int(a.e), d, p, q, dP, dQ, qInv)
+    objs["ctor-n-e-d-p-q"] = Python_RSAKey(n, int(a.e), d, p, q)
+    if int(a.e) == E:
+        for name, pk8 in (("parsePEMKey-pkcs1", False), ("parsePEMKey-pkcs8", True)):
+            objs[name] = keyfactory.parsePEMKey(pem_of(nums, pk8), private=True, implementations=["python"])
+        objs["parsePrivateKey-pkcs1"] = keyfactory.parsePrivateKey(pem_of(nums))
+    k = Python_RSAKey()
+    k.n, k.e, k.d, k.p, k.q, k.dP, k.dQ, k.qInv = n, int(a.e), d, p, q, dP, dQ, qInv
+    objs["attributes-assigned"] = k
+    try:
+        objs["write-then-parse"] = keyfactory.parsePEMKey(a.write(), private=True, implementations=["python"])
+    except NotImplementedError:
+        pass
+    return nums, objs
+
+
+def path_ciphertexts(rng, nums):
+    n = nums[0]
+    k = kbytes(n)
+    out = []
+
+    def enc(em):
+        return pow(int.from_bytes(em, "big") % n, E, n).to_bytes(k, "big")
+    good = bytearray(em_valid(rng, k, rbytes(rng, 20)))
+    for kind, pos, val in (("bad-first-byte", 0, 1), ("bad-second-byte", 1, 1), ("bad-second-byte-0", 1, 0), ("bad-zero-in-ps-2", 2, 0),
+                           ("bad-zero-in-ps-9", 9, 0)):
+        b = bytearray(good)
+        b[pos] = val
+        out.append((kind, enc(bytes(b))))
+    out.append(("bad-no-separator", enc(b"\x00\x02" + nzbytes(rng, k - 2))))
+    out.append(("em-zero", bytes(k)))
+    for _ in range(6):
+        out.append(("random-ciphertext", rng.randrange(n).to_bytes(k, "big")))
+    for ml in (0, 1, 48, k - 11):
+        out.append(("valid-len", enc(em_valid(rng, k, rbytes(rng, ml)))))
+    out.append(("pubinvalid-c=n", n.to_bytes(k, "big")))
+    out.append(("pubinvalid-len-k-1", enc(bytes(good))[1:]))
+    return out
+
+
+def construction_path_cases(ctx, replay_inp=None):
+    """decrypt() of the same ciphertexts through every object that holds the same key: identical results, equal to the
+    reference derived from (d, k, c) alone, equal to the model"""
+    import random
+    lc = ctx.lean()
+    runs = [(b, ctx.rng.getrandbits(48), ctx.rng.getrandbits(48)) for b in ctx.pick([512], [512, 768, 1024])] \
+        if replay_inp is None else [(replay_inp["bits"], replay_inp["gen_seed"], replay_inp["ct_seed"])]
+    failed = False
+    lines, meta = [], []
+    for bits, gen_seed, ct_seed in runs:
+        nums, objs = key_objects(bits, gen_seed)
+        n, d, p, q = nums
+        ctx.count("construction-paths:%d" % len(objs))
+        for kind, c in path_ciphertexts(random.Random(ct_seed), nums):
+            want = ref_decrypt(nums, c)
+            res = {name: impl_decrypt(o, c) for name, o in objs.items()}
+            res2 = {name: impl_decrypt(o, c) for name, o in objs.items()}       # and again on the now-used objects
+            rep = {"stage": "paths", "bits": bits, "gen_seed": gen_seed, "ct_seed": ct_seed, "kind": kind, "c": c.hex(),
+                   "key": key_blob(nums), "want": canon(want), "results": {a: canon(b)[:140] for a, b in res.items()}}
+            ctx.case(key=("paths", n, c), sample=None)
+            ctx.count("paths:" + kind)
+            bad = [a for a in res if res[a] != want or res2[a] != want]
+            if bad:
+                failed = True
+                okp = [a for a in res if a not in bad]
+                if len(set(canon(v) for v in res.values())) > 1 or any(res[a] != res2[a] for a in res):
+                    ctx.violation("c11:decrypt-depends-on-key-object",
+                                  "the same RSA key held in different objects decrypts the same ciphertext (%s) differently: %s give "
+                                  "%s, %s give the reference result %s" % (kind, bad, canon(res[bad[0]])[:60], okp or "none",
+                                                                           canon(want)[:60]), rep)
+                else:
+                    v = classify(nums, c, res[bad[0]])
+                    ctx.violation(v[0], v[1] + " [%s, every construction path of a library-generated %d-bit key]" % (kind, bits), rep)
+            if replay_inp is not None:
+                continue
+            if len(c) == kbytes(n) and int.from_bytes(c, "big") < n:
+                sha, hm = tables(n, d, c)
+                line = "dec %s %s %s %s %s %s" % (nhex(n), nhex(d), hx(ref_em(nums, c)), hx(c), sha, hm)
+            else:
+                line = "dec %s %s 00 %s - -" % (nhex(n), nhex(d), hx(c))
+            for name in res:
+                lines.append(line)
+                meta.append((dict(rep, path=name), res[name]))
+    if lc is not None and lines:
+        uniq = sorted(set(lines))
+        ans = dict(zip(uniq, lc.batch(uniq)))
+        for line, (rep, impl) in zip(lines, meta):
+            ctx.compared()
+            if ans[line] != canon(impl):
+                ctx.disagree("decrypt-by-construction-path", rep, ans[line], canon(impl))
+    return failed
+
+
 def classify_stub(nums, c, em, impl, want):
     n, d, p, q = nums
     k = kbytes(n)
@@ -1233,6 +1387,7 @@ def run(ctx):
             uniformity_cases(ctx, nums, label)
     for label, nums in keys:
         synth_select_cases(ctx, nums, label)
+    construction_path_cases(ctx)
     pcke_cases(ctx, keys[2][1])
     server_cases(ctx)
 
@@ -1242,6 +1397,11 @@ def run(ctx):
 def replay(ctx, rep):
     inp = rep["input"]
     stage = inp.get("stage")
+    if stage == "paths":
+        failed = construction_path_cases(ctx, inp)
+        for v in ctx.violations:
+            print(v["what"][:300])
+        return failed
     if stage == "decrypt":
         nums = blob_key(inp["key"])
         c = bytes.fromhex(inp["c"])
